@@ -369,6 +369,28 @@ def r6_reset_counter(ctx):
     r.floor(n, 30, 'state x queued rows')
 
 
+def r11_preface(ctx):
+    r = ctx.rule('C08.R11', 'GUARD', 'server preface: each read is bounded by the bytes still missing, which is what keeps the PREFACE[pos..pos+n] comparison in range')
+    F = ctx.facts
+    cands = [f for n, f in F.fns.items() if n.startswith('<server::ReadPreface as ') and n.endswith('::poll')]
+    if len(cands) != 1:
+        r.bad('preface|anchor', '', 'ReadPreface::poll not found (%d)' % len(cands))
+        return
+    f = cands[0]
+    n = 0
+    for bi, t in f.calls(lambda t: t['fn'] == 'tokio::io::ReadBuf::new'):
+        n += 1
+        e = f.expr_of_op(t['a'][0])
+        ranged = [x for x in walk(e) if x[0] == 'call' and ('index_mut' in x[1] or x[1].endswith('::index')) and len(x[2]) == 2 and x[2][1][0] == 'aggr' and 'RangeTo' in str(x[2][1][2])]
+        r.check(bool(ranged), 'preface|read-bounded', f.loc(bi),
+                'ReadBuf::new(%s)%s' % (core.show(e)[:80], ' — bounded by the remaining length' if ranged else
+                                        ' — unbounded: a read that returns the rest of the preface together with following bytes makes PREFACE[pos..pos+n] index out of range (panic on valid input)'))
+    r.floor(n, 1, 'ReadBuf::new sites in ReadPreface::poll')
+    # the loop bound: rem = PREFACE.len() - pos, decreased by what was read
+    subs = [1 for bi, si, pl, rv, ln in f.stmts() if rv[0] == 'bin' and rv[1].startswith('Sub')]
+    r.check(len(subs) >= 2, 'preface|remaining-tracked', f.file, 'the remaining length is computed and decreased (%d subtractions)' % len(subs))
+
+
 def r7_frame_size_floor(ctx):
     r = ctx.rule('C08.R7', 'GUARD', 'a peer cannot set a max frame size under which header-block / DATA writing makes no progress: SETTINGS_MAX_FRAME_SIZE below 2^14 is refused on load')
     from . import C12
@@ -379,6 +401,10 @@ def run(ctx):
     r1_slots(ctx)
     r6_reset_counter(ctx)
     r7_frame_size_floor(ctx)
+    r11_preface(ctx)
+    from . import C09, C19
+    C09.r8_idle_boundary(ctx, 'C08.R9')   # a reset id is retired, so Store::insert's assert on a fresh id is unreachable
+    C19.r6_idle_client(ctx, 'C08.R10')    # the client's only self-wake is edge-triggered (had streams/refs before, none after)
     r2_buffer_guard(ctx)
     r3_decode_panics(ctx)
     r4_loops(ctx)
